@@ -600,6 +600,10 @@ class Engine:
             return self.dom_of(st, v) != z3.K(Val, z3.BoolVal(False))
         if k == "tuple":
             return z3.BoolVal(len(v.x) > 0)
+        if k == "sset":
+            return v.t != z3.K(Val, z3.BoolVal(False))
+        if k == "cset":
+            return z3.BoolVal(len(v.x) > 0)
         if k in ("inst", "obj", "func", "bound", "cls", "builtin", "ext", "ctxvar", "module"):
             if k == "inst" and v.h and self.class_has_method(v.h, ("__bool__", "__len__")):
                 raise Unsupported("truthiness of %s instance with __bool__/__len__" % v.h)
